@@ -125,69 +125,88 @@ def run_loads(c, o):
     if sym:
         cg[1] = 0.0
     o.close("cg/location", p.get_val("cg_location"), cg, rtol=1e-12, scale=np.abs(nodes).max())
-    n = c["load_factor"]
     span = np.ptp(nodes[:, 1]) + 1.0
     pts = [nodes.mean(axis=0)] + [nodes.mean(axis=0) + rng.normal(size=3) * span for _ in range(2)]
-    total_ref = np.zeros((ny, 6))
     nontriv = True
-    if c["relief"]:
-        ld = np.array(p.get_val("states.struct_weight_loads"))
-        total_ref += ld
-        W = em_ref * G0 * n
-        fs = np.abs(W).sum()
-        for P in pts:
-            F, Mo = resultant(nodes, ld, P)
-            o.close("weight_loads/force", F, [0, 0, -W.sum()], rtol=1e-11, scale=fs)
-            Mref = np.cross(mid - P, np.stack([0 * W, 0 * W, -W], axis=1)).sum(axis=0)
-            o.close("weight_loads/moment", Mo, Mref, rtol=1e-11, scale=fs * span)
-        # every node carries half the weight of each adjacent element
-        fz = np.zeros(ny)
-        fz[:-1] -= W / 2
-        fz[1:] -= W / 2
-        o.close("weight_loads/nodal_share", ld[:, 2], fz, rtol=1e-11, scale=np.abs(W).max())
-        o.close("weight_loads/no_inplane_force", ld[:, :2], 0.0, rtol=0, atol=0)
-    vols_ref = A_int * L
-    if fem == "wingbox":
-        o.close("fuel/volumes", p.get_val("bsetup.fuel_vols"), vols_ref, rtol=1e-12)
-        req = (c["fuel_mass"] * 0.9 + c["reserve"]) / c["fuel_density"]
-        if sym:
-            req /= 2.0
-        o.close("fuel/margin", p.get_val("fvd.fuel_vol_delta"), vols_ref.sum() - req, rtol=1e-12, scale=max(vols_ref.sum(), req))
-    if c["fuel"]:
-        ld = np.array(p.get_val("states.fuel_weight_loads")).real
-        total_ref += ld
-        Wt = (c["fuel_mass"] + c["reserve"]) * G0 * n * (0.5 if sym else 1.0)
-        W = vols_ref / vols_ref.sum() * Wt
-        fs = np.abs(W).sum()
-        for P in pts:
-            F, Mo = resultant(nodes, ld, P)
-            o.close("fuel_loads/force", F, [0, 0, -Wt], rtol=1e-11, scale=fs)
-            Mref = np.cross(mid - P, np.stack([0 * W, 0 * W, -W], axis=1)).sum(axis=0)
-            o.close("fuel_loads/moment", Mo, Mref, rtol=1e-11, scale=fs * span)
-    if npm:
-        ld = np.array(p.get_val("states.loads_from_point_masses"))
-        total_ref += ld
-        Fp = np.stack([0 * pm, 0 * pm, -pm * G0 * n], axis=1)
-        fs = np.abs(Fp).sum()
-        for P in pts:
-            F, Mo = resultant(nodes, ld, P)
-            o.close("point_mass/force", F, Fp.sum(axis=0), rtol=1e-11, scale=fs)
-            o.close("point_mass/moment", Mo, np.cross(loc - P, Fp).sum(axis=0), rtol=1e-11, scale=fs * span * 3)
-        ld = np.array(p.get_val("states.loads_from_thrusts"))
-        total_ref += ld
-        Ft = np.stack([-th, 0 * th, 0 * th], axis=1)
-        fs = max(np.abs(Ft).sum(), 1e-300)
-        for P in pts:
-            F, Mo = resultant(nodes, ld, P)
-            o.close("thrust/force", F, Ft.sum(axis=0), rtol=1e-11, scale=fs, atol=1e-300)
-            o.close("thrust/moment", Mo, np.cross(loc - P, Ft).sum(axis=0), rtol=1e-11, scale=fs * span * 3, atol=1e-300)
-    ext = rng.normal(size=(ny, 6)) * 1e3
-    p.set_val("loads", ext)
-    with warnings.catch_warnings():
-        warnings.simplefilter("ignore")
-        p.run_model()
-    tl = np.array(p.get_val("states.total_loads"))
-    o.close("total_loads/is_sum", tl, total_ref + ext, rtol=1e-12, scale=max(np.abs(total_ref).max(), 1e3))
+    n = c["load_factor"]
+    fuel_mass = c["fuel_mass"]
+    # stage 0: the case as drawn; stages 1..2: further load cases on the SAME problem (new masses, thrusts - all engines off in one of
+    # them -, load factor, fuel mass): every load source must sum to the CURRENT load, whatever was evaluated before
+    for stage in range(3):
+        if stage:
+            n = float(np.round(rng.uniform(-1.0, 3.0), 3))
+            fuel_mass = float(c["fuel_mass"] * rng.uniform(0.2, 1.5))
+            p.set_val("load_factor", n)
+            p.set_val("fuel_mass", fuel_mass, units="kg")
+            p.set_val("loads", np.zeros((ny, 6)))
+            if npm:
+                pm = 10 ** rng.uniform(1, 4, npm)
+                th = np.zeros(npm) if stage == c.get("off_stage", 1) else 10 ** rng.uniform(2, 5, npm) * rng.choice([1.0, 1.0, 0.0], npm)
+                p.set_val("point_masses", pm, units="kg")
+                p.set_val("engine_thrusts", th, units="N")
+            with warnings.catch_warnings():
+                warnings.simplefilter("ignore")
+                p.run_model()
+            o.count("later_load_cases_on_one_problem")
+        total_ref = np.zeros((ny, 6))
+        if c["relief"]:
+            ld = np.array(p.get_val("states.struct_weight_loads"))
+            total_ref += ld
+            W = em_ref * G0 * n
+            fs = np.abs(W).sum()
+            for P in pts:
+                F, Mo = resultant(nodes, ld, P)
+                o.close("weight_loads/force", F, [0, 0, -W.sum()], rtol=1e-11, scale=fs)
+                Mref = np.cross(mid - P, np.stack([0 * W, 0 * W, -W], axis=1)).sum(axis=0)
+                o.close("weight_loads/moment", Mo, Mref, rtol=1e-11, scale=fs * span)
+            # every node carries half the weight of each adjacent element
+            fz = np.zeros(ny)
+            fz[:-1] -= W / 2
+            fz[1:] -= W / 2
+            o.close("weight_loads/nodal_share", ld[:, 2], fz, rtol=1e-11, scale=np.abs(W).max())
+            o.close("weight_loads/no_inplane_force", ld[:, :2], 0.0, rtol=0, atol=0)
+        vols_ref = A_int * L
+        if fem == "wingbox":
+            o.close("fuel/volumes", p.get_val("bsetup.fuel_vols"), vols_ref, rtol=1e-12)
+            req = (c["fuel_mass"] * 0.9 + c["reserve"]) / c["fuel_density"]
+            if sym:
+                req /= 2.0
+            o.close("fuel/margin", p.get_val("fvd.fuel_vol_delta"), vols_ref.sum() - req, rtol=1e-12, scale=max(vols_ref.sum(), req))
+        if c["fuel"]:
+            ld = np.array(p.get_val("states.fuel_weight_loads")).real
+            total_ref += ld
+            Wt = (fuel_mass + c["reserve"]) * G0 * n * (0.5 if sym else 1.0)
+            W = vols_ref / vols_ref.sum() * Wt
+            fs = np.abs(W).sum()
+            for P in pts:
+                F, Mo = resultant(nodes, ld, P)
+                o.close("fuel_loads/force", F, [0, 0, -Wt], rtol=1e-11, scale=fs)
+                Mref = np.cross(mid - P, np.stack([0 * W, 0 * W, -W], axis=1)).sum(axis=0)
+                o.close("fuel_loads/moment", Mo, Mref, rtol=1e-11, scale=fs * span)
+        if npm:
+            ld = np.array(p.get_val("states.loads_from_point_masses"))
+            total_ref += ld
+            Fp = np.stack([0 * pm, 0 * pm, -pm * G0 * n], axis=1)
+            fs = np.abs(Fp).sum()
+            for P in pts:
+                F, Mo = resultant(nodes, ld, P)
+                o.close("point_mass/force", F, Fp.sum(axis=0), rtol=1e-11, scale=fs)
+                o.close("point_mass/moment", Mo, np.cross(loc - P, Fp).sum(axis=0), rtol=1e-11, scale=fs * span * 3)
+            ld = np.array(p.get_val("states.loads_from_thrusts"))
+            total_ref += ld
+            Ft = np.stack([-th, 0 * th, 0 * th], axis=1)
+            fs = max(np.abs(Ft).sum(), 1e-300)
+            for P in pts:
+                F, Mo = resultant(nodes, ld, P)
+                o.close("thrust/force", F, Ft.sum(axis=0), rtol=1e-11, scale=fs, atol=1e-300)
+                o.close("thrust/moment", Mo, np.cross(loc - P, Ft).sum(axis=0), rtol=1e-11, scale=fs * span * 3, atol=1e-300)
+        ext = rng.normal(size=(ny, 6)) * 1e3
+        p.set_val("loads", ext)
+        with warnings.catch_warnings():
+            warnings.simplefilter("ignore")
+            p.run_model()
+        tl = np.array(p.get_val("states.total_loads"))
+        o.close("total_loads/is_sum", tl, total_ref + ext, rtol=1e-12, scale=max(np.abs(total_ref).max(), 1e3))
     o.nontrivial = nontriv
     o.info = dict(ny=ny, mass=float(em_ref.sum()))
 
